@@ -30,7 +30,7 @@ type FuzzCase struct {
 	// ReadMsg: drain with ReadMessage instead of NextReader+Read.
 	ReadMsg bool   `json:"readmsg,omitempty"`
 	Data    []byte `json:"data"`
-	Chunks   []int  `json:"chunks,omitempty"`
+	Chunks  []int  `json:"chunks,omitempty"`
 	// Headers for entry "headers": name -> values (canonical names).
 	Headers map[string][]string `json:"headers,omitempty"`
 	Method  string              `json:"method,omitempty"`
